@@ -1,0 +1,28 @@
+//go:build verif
+
+// Contracts for the tvc verifier (/verif). Comment-only: with the `verif` tag off this file does not exist,
+// with it on it adds no code. Syntax: /verif/DESIGN.md appendix A.
+
+package pod
+
+//@ for C10
+
+//@ # documented PodENI phase machine: Initial->Bind, Binding->Bind, Bind->Detaching, Detaching->Unbind,
+//@ # Unbind->Binding, any->Deleting
+//@ pure func phaseStep(o v1beta1.Phase, n v1beta1.Phase) bool = n == "Deleting" || (o == "" && n == "Bind") || (o == "Binding" && n == "Bind") || (o == "Bind" && n == "Detaching") || (o == "Detaching" && n == "Unbind") || (o == "Unbind" && n == "Binding")
+
+//@ # every status write of the pod controller is a legal step from the phase it read
+//@ guard call SubResourceWriter.Update in podCreate: phaseStep(prePodENI.Status.Phase, prePodENICopy.Status.Phase)
+//@ guard call SubResourceWriter.Update in reConfig: phaseStep(prePodENI.Status.Phase, update.Status.Phase)
+
+//@ # when creation fails after interfaces may have been created, every created interface is deleted again
+//@ ghost c10entered bool = false
+//@ ghost c10rolled bool = false
+//@ func ReconcilePod.podCreate
+//@   at call ReconcilePod.createENI before: ghost c10entered = true
+//@   at call ReconcilePod.deleteAllENI before: ghost c10rolled = true
+//@   ensures c10entered && result1 != nil ==> c10rolled
+
+//@ # reConfig only moves an unbound record to Binding (same pod instance) or re-labels it; it is entered from Unbind
+//@ func ReconcilePod.reConfig
+//@   requires prePodENI != nil && prePodENI.Status.Phase == "Unbind"
